@@ -78,7 +78,7 @@ pub fn run(args: &Args) -> Report {
     let mut report = Report::new("C19", "exploration");
     let rig = Rig::new(Options::default);
     let eps = reqs::endpoints();
-    let max_dev = args.tier.pick(2usize, 3usize);
+    let max_dev = args.tier.pick(2usize, 5usize);
     for e in &eps {
         for states in reqs::assignments(e, max_dev) {
             check(&mut report, &rig, e, &states);
